@@ -1568,7 +1568,12 @@ where
                             pending_writes.push(do_write(tx, false));
                             true
                         }
-                        _ => false,
+                        _ => {
+                            // Nothing to write (for example, removing an absent key marks a map
+                            // lane as modified but produces no event): keep the writer.
+                            item_writers.insert(*id, tx);
+                            false
+                        }
                     }
                 } else {
                     true
